@@ -23,7 +23,9 @@ Record fcfg := mkFcfg {
   f_insecure : bool;        (* InsecureAuth (plaintext transport in this model) *)
   f_literal_plus : bool;    (* server advertises LITERAL+ *)
   f_tlsconfig : bool;
-  f_date_ok : bytes -> bool (* time.Parse(DateTimeLayout, s) succeeds — library oracle *)
+  f_date_ok : bytes -> bool; (* time.Parse(DateTimeLayout, s) succeeds — library oracle *)
+  f_append_fails : bytes -> bool (* backend oracle: Session.Append on this mailbox returns an error
+                                    (possibly without reading the message) *)
 }.
 
 Definition APPEND_LIMIT : N := 104857600.
@@ -363,7 +365,7 @@ Definition handle_cmd (cfg : fcfg) (c : conn) (name : bytes) (s : bytes) : hres 
                             end
                           else
                             match dec_crlf r7 with
-                            | DOk _ r8 => mkH [SAppend m flags date payload] (conts_out k') 0 st0 r8 true false
+                            | DOk _ r8 => mkH [SAppend m flags date payload] (conts_out k') (if f_append_fails cfg m then 1 else 0) st0 r8 true false
                             | DNo r8 => mkH [SAppend m flags date payload] (conts_out k') (io_or_syntax r8) st0 r8 false false
                             | DErr => mkH [SAppend m flags date payload] (conts_out k') 3 st0 r7 false false
                             end
